@@ -2,7 +2,11 @@
 
 package main
 
-import "strings"
+import (
+	"strings"
+
+	"verifharness/vlib"
+)
 
 type Plan struct {
 	Level       string
@@ -11,6 +15,7 @@ type Plan struct {
 	Quick       []Shard
 	Thorough    []Shard
 	Keep        func(sig string) bool // nil = every finding belongs to this property
+	Pre, Post   func(c *vlib.Check) error
 }
 
 var plans = map[string]Plan{}
@@ -111,5 +116,34 @@ func init() {
 			"a handler may only be cancelled after the grace timer fired or after its client disconnected"},
 		Quick:    cat(db(100, B{{2, 0}, {3, 0}}, c16one...), db(100, B{{2, 0}}, c16two...), pb(100, B{{0, 0}, {1, 0}}, "shut-fast", "shut-late"), db(100, B{{4, 0}}, "shut-late")),
 		Thorough: cat(db(1500, B{{3, 0}, {4, 0}, {5, 0}}, c16one...), db(1500, B{{3, 0}}, c16two...), pb(1500, B{{1, 0}, {2, 0}, {3, 0}}, c16one...)),
+	}
+
+	plans["C15"] = Plan{
+		Level: "model_checking",
+		Rule: "(1) explicit exhaustive enumeration of all batches up to the stated size over the action alphabet {Set a, Set b, Read, GetIdOrPlaceholder, fail, panic} x {Continue, Stop}, each followed by a probe request " +
+			"on the same connection context, compared with a reference model (one string per request, cleared on item failure); (2) all schedules of 2-3 concurrent requests whose handlers yield before every placeholder action, " +
+			"directly on one BatchExecutor and through two real server connections. distinct = distinct (scenario, outcome) classes. " + boundingNote,
+		Assumptions: []string{netAssumption, fifoAssumption, "placeholder accesses are declared to the scheduler as conflicting accesses so that the state cache cannot merge their orders"},
+		Keep:        hasPrefix("fail:placeholder", "panic:"),
+		Quick: cat(pb(100, B{{0, 0}}, "ph-seq-exhaustive-t"), pb(100, B{{2, 0}, {8, 0}}, "ph-conc-2", "ph-conc-2-fail"), pb(100, B{{2, 0}, {4, 0}}, "ph-conc-3"),
+			db(100, B{{2, 0}}, "ph-srv-seq", "ph-srv-2conn")),
+		Thorough: cat(pb(1500, B{{0, 0}}, "ph-seq-exhaustive-x"), pb(1500, B{{8, 0}}, "ph-conc-2", "ph-conc-2-fail"), pb(1500, B{{4, 0}, {12, 0}}, "ph-conc-3"),
+			db(1500, B{{3, 0}, {4, 0}}, "ph-srv-seq", "ph-srv-2conn"), pb(1500, B{{1, 0}}, "ph-srv-seq", "ph-srv-2conn")),
+	}
+
+	c20two := []string{"codec:enc-req10-ttlv||enc-req14-ttlv", "codec:enc-req10-ttlv||dec-req12-ttlv", "codec:enc-resp14-xml||enc-resp12-json", "codec:enc-create11-xml||enc-create14-ttlv",
+		"codec:dec-resp13-xml||enc-resp14-xml", "codec:dec-create14-json||enc-create11-xml", "codec:reuse-10-then-14||reuse-14-then-10"}
+	c20big := []string{"codec:enc-req10-ttlv+dec-resp13-xml||enc-resp14-xml+dec-req12-ttlv", "codec:enc-req10-ttlv||enc-req14-ttlv||dec-req12-ttlv"}
+	plans["C20"] = Plan{
+		Level: "model_checking",
+		Rule: "all interleavings (at the per-type plan cache operations Load/Store of the instrumented ttlv package, caches reset to cold before every execution) of 2-3 threads each encoding/decoding " +
+			"messages of different versions and formats, compared with the result of the same call run alone from cold caches; distinct = distinct (scenario, outcome) classes. " + boundingNote,
+		Assumptions: []string{"sequentially consistent memory; the 'no data race' clause is examined separately by a free-running -race pass (supporting evidence, not exhaustive)",
+			"scheduling points are the sync.Map operations of the plan caches (the only synchronisation in the codec)"},
+		Keep:     hasPrefix("fail:codec-result", "panic:", "race:"),
+		Pre:      codecPre,
+		Post:     codecPost,
+		Quick:    cat(pb(100, B{{1, 0}, {2, 0}}, c20two...), pb(100, B{{1, 0}}, c20big...), pb(100, B{{0, 0}}, "codec-hist-3")),
+		Thorough: cat(pb(1500, B{{2, 0}, {3, 0}}, c20two...), pb(1500, B{{2, 0}}, c20big...), pb(1500, B{{0, 0}}, "codec-hist-4")),
 	}
 }
